@@ -121,6 +121,12 @@ impl C06 {
 
 impl Check for C06 {
     fn id(&self) -> &'static str { "C06" }
+    fn miri_plan(&self, tier: Tier) -> Option<Vec<(u64, u64)>> {
+        if tier != Tier::Thorough {
+            return None;
+        }
+        Some((0 .. 16).map(|i| (i * 560 + 7, 30)).collect())
+    }
     fn rule(&self) -> String {
         "exhaustive sweep: every length byte 0..=255 (Latin-1 lengths 0-127, UCS-2 lengths 0-127) x 5 decorations (none, colour escape at start/middle/end, control codes) x 7 string positions (ip, name, map, game type, rule key, rule value, player name), plus random states (repeated rule keys, mutators, 0-64 players, bots, 1-6 datagrams per list); unreal2::query must return numeric fields exactly and strings = sent text with colour/control codes removed. non-trivial = Ok and equal; distinct by datagram bytes".into()
     }
